@@ -8,9 +8,14 @@ Coq side (Props/C23.v):
         (cross-checked against IrToWasmCompiler.binop_map); Proofs/C23_ops.v: WasmNumSpec of the selected opcode
         = IRSem.eval_binop / eval_cond on in-range operands (exact rows), or up to re-wrapping (sub-word rows)
   * H   Model/Ir2WasmOps.v place/mem_image : placement of initialised globals; Proofs/C23_data.v
-Validated only (no wasm reference engine in the sandbox, ppci's python wasm target is the executor): do_tree as a
-whole (locals, calls, loads/stores, casts), do_shape's label arithmetic (skeleton correspondence + execution), the
-end-to-end differential against tools/irsem_py.py.
+  * H   Spec/WasmCtlSpec.v + Model/ShapeCompile.v + Proofs/C23_doshape.v : do_shape as a function into a structured
+        wasm control language (block/loop/if/br with label-stack semantics); the emitted skeleton executes like the
+        shape tree (c23_do_shape_exec) and so follows the CFG (c23_do_shape_sound); tied by comparing the token stream
+  * I/H Model/Ir2WasmPost.v + Proofs/C23_post.v, C23_table2.v : re-wrapping after narrow arithmetic (emit_wrap) and
+        the integer cast table (conversion opcode + re-wrapping), both exported by compiling one-instruction functions
+Validated only (no wasm reference engine in the sandbox, ppci's python wasm target is the executor): the rest of
+do_tree (locals, calls, loads/stores, constants, unary minus, floats), function pointers, the end-to-end
+differentials (irgen modules vs tools/irsem_py.py; trace-hash functions over generated CFGs vs the CFG walk).
 """
 import contextlib
 import hashlib
@@ -24,7 +29,8 @@ from vlib import OkV, Diag, Internal, TieBroken, REPO, VERIF
 LEVEL = 'translation_validation'
 RULE = ('programs = CFGs given to find_structure (all with <= 3 blocks, a fixed stride of the 4-block ones with a '
         'predecessor-free entry, seeded random 5..7-block ones, structured and arbitrary) + one-instruction operator '
-        'functions + generated modules with globals + irgen modules run end to end; a case is distinct non-trivial when '
+        'and cast functions + generated modules with globals + irgen modules run end to end + trace-hash functions over '
+        'generated CFGs (result = hash of the executed block trace, argument = branch oracle); a case is distinct non-trivial when '
         'the CFG/program text is new and ppci did not reject it; disagreements_checked = accepted shapes whose block '
         'trace was compared with the CFG walk under all 2^8 branch oracles + operator/e2e result comparisons')
 EXPLANATION = ('Verified validator: check_shape g s = true implies that, for every branch oracle and every fuel, the '
@@ -38,7 +44,14 @@ EXPLANATION = ('Verified validator: check_shape g s = true implies that, for eve
                'segments: the model of the placement (consecutive from 1000, no alignment) is proved to give a memory '
                'image equal to the zero-padded initial contents at disjoint addresses. NOT proved (validated by '
                'execution on ppci\'s own python wasm target only): instruction selection beyond binops/compares, '
-               'locals, calls, memory access, casts, floats, the br label arithmetic of do_shape, function pointers.')
+               'locals, calls, memory access (loads/stores), constants, unary operators, floats, function pointers. '
+               'Added in the deepening round: do_shape itself is modelled as a compiler into a structured wasm control '
+               'language with label-stack semantics and proved to execute like the shape tree for all shapes, oracles and '
+               'fuel (so the emitted br depths are right and, with check_shape, the wasm control flow follows the CFG); the '
+               're-wrapping sequences after narrow + - * << (present after fixes/C23-rewrap-narrow.diff) make those rows '
+               'exact (proved), and the whole table exact when rewrap_complete evaluates to true; integer casts: conversion '
+               'opcode + re-wrapping equals the IR cast for every row classified good (proved), the remaining rows '
+               '(cast_bad_rows) are refuted or recorded findings.')
 TRUSTED = ['export of CFG/shape terms (tools/props/c23.py: cfg_of_function, shape_to_coq) and of the operator table',
            'Spec/StructSpec.v reading of do_shape (if/else/end, block+loop, br) as structured semantics',
            'Spec/WasmNumSpec.v (owned by C22) and Spec/IRSem.v (IR hub) as the two reference semantics',
@@ -51,15 +64,18 @@ MANIFEST = {
     'text': 'translation validation: a Coq-verified checker (check_shape, soundness proved for all CFGs, shapes, branch '
             'oracles) decides for every shape tree that ppci.graph.relooper.find_structure returns on the generated CFGs '
             'whether structured execution follows exactly the CFG; unbounded Coq theorems relate the wasm opcode ppci2wasm '
-            'selects for each (IR operator, type) and each CJMP comparison to IRSem via WasmNumSpec (exact rows, rows '
-            'correct only up to re-wrapping, refuted rows are listed explicitly), and the placement of initialised globals '
+            'selects for each (IR operator, type), each CJMP comparison and each integer cast to IRSem via WasmNumSpec (exact '
+            'rows, rows exact once re-wrapped, refuted rows listed explicitly), the br-depth arithmetic of do_shape to the '
+            'shape semantics (structured wasm control language, all shapes), and the placement of initialised globals '
             'to the memory image. The rest of the IR->wasm path is validated by running ir_to_wasm output on ppci\'s own '
             'python wasm target against an independent IR interpreter',
     'note': 'no wasm reference engine exists in the sandbox; the executor is ppci\'s python target. Genuine defects found: '
             'find_structure returns wrong structurings (nested loops, entry in a loop) instead of rejecting -> fix = port of '
             'the verified validator into relooper.find_structure; create_wasm_module builds components.Data with stale '
-            'arguments (every module with an initialised global or literal is rejected) -> fix; sub-word/u32 arithmetic is '
-            'never re-wrapped and ptr uses signed / % >> (known findings)',
+            'arguments (every module with an initialised global or literal is rejected) -> fix (both applied); sub-word/u32 '
+            'arithmetic and narrowing casts are never re-wrapped -> fixes/C23-rewrap-narrow.diff; ptr uses signed / % >> '
+            'and compares, same-size sign casts are elided, i32->u64 zero-extends (known findings). Loads/stores, '
+            'constants and unary operators have no theorem',
     'technique': 'verified validator + reflected operator table + differential execution',
 }
 
